@@ -1322,6 +1322,32 @@ func realCase(r *prng.R, id string) proto.Case {
 	return proto.Case{ID: id, Ops: ops}
 }
 
+// stressCase: transactions WHILE the engine's other goroutines run.  kind=metrics: 2-4 probe flows on the test url
+// (so that the per-flow counters are a real map), a reader scraping the stream's metric getters; kind=queue: a
+// flow with a real Queue processor (ttl 0, quota with room for one request) whose background loop is made to poll
+// continuously while transactions — and their enter/leave traffic on the processor's queue — run.
+func stressCase(r *prng.R, id, kind string) proto.Case {
+	ops := append([]string{}, vocabLines...)
+	if kind == "queue" {
+		ops = append(ops, fmt.Sprintf("quota qq url=verif.test/* s=fixed max=%d int=1 unit=hour", r.Range(1, 3)), "rflow rq queue")
+		if r.Bool() {
+			ops = append(ops, baseFlow("f1")...)
+		}
+		ops = append(ops, "load", fmt.Sprintf("stress kind=queue ms=%d workers=%d", r.Range(400, 700), r.Range(1, 3)))
+		return proto.Case{ID: id, Ops: ops}
+	}
+	n := r.Range(2, 4)
+	for i := 0; i < n; i++ {
+		ops = append(ops, baseFlow(fmt.Sprintf("f%d", i))...)
+	}
+	if r.Bool() {
+		ops = append(ops, "quota q1 url=verif.test/* s=conc maxreq=1000000")
+	}
+	ops = append(ops, "load", fmt.Sprintf("stress kind=metrics ms=%d workers=%d", r.Range(300, 600), r.Range(2, 4)),
+		"txn dir=res o=-")
+	return proto.Case{ID: id, Ops: ops}
+}
+
 var noDocKinds = []string{"comment", "dashes", "tilde", "null", "blank", "empty", "dashes-comment", "broken", "valid-pp", "valid-gw"}
 
 // noDocCase: a valid configuration (probe flow, optionally a quota) next to a file that holds no YAML document —
@@ -1454,6 +1480,14 @@ func gen(r *prng.R, f proto.Flags, emit func(proto.Case)) {
 	}
 	for i := 0; i < 3*nF; i++ {
 		emit(realCase(r.Fork(), next("h")))
+	}
+	nStress := 2 * mul
+	if thorough {
+		nStress = 12 * mul
+	}
+	for i := 0; i < nStress; i++ {
+		emit(stressCase(r.Fork(), next("s-metrics-"), "metrics"))
+		emit(stressCase(r.Fork(), next("s-queue-"), "queue"))
 	}
 	nDoc := mul
 	if thorough {
